@@ -152,3 +152,7 @@ where
     // return the barrier function at (z+αdz,s+αds)
     fn compute_barrier(&mut self, z: &[T], s: &[T], dz: &[T], ds: &[T], α: T) -> T;
 }
+
+// verification hooks: re-export of the wrapper defined in the private module
+#[cfg(clarabel_verif)]
+pub use nonsymmetric_common::verif_backtrack_search;
